@@ -158,10 +158,12 @@ func isOptionalSrcMetadataWellFormed(metadata string) bool {
 type URLSet struct {
 	// We declare a URLSet not as a string but as a struct wrapping a string
 	// to prevent construction of URL values through string conversion.
-	str string
+	// The field name differs from that of every other safe type, so that a value
+	// of one safe type cannot be converted to another one either.
+	set string
 }
 
 // String returns the string content of a URLSet
 func (s URLSet) String() string {
-	return s.str
+	return s.set
 }
